@@ -691,7 +691,7 @@ func (c *Ctx) checkCapturedOutput(r *Report) {
 
 func init() {
 	register("C01", &propDef{
-		explain: "Necessary structural conditions of agreement with the reference semantics, decided on the tables and the evaluator's control flow: every operator and node the parser can produce has an evaluation case (operator sets derived from the parser registries via the token-state engine); the precedence table induces exactly the documented weak order and binary operators are left-associative; && and || cannot evaluate their right operand once the left decides; no evaluation result reaches container storage without an error test (interprocedural may-be-error analysis with dominating Type()==ERROR tests as path-dependent sanitisers). Values computed by programs (arithmetic, scoping, slicing, loop control) are not decided. Also: left-before-right evaluation order, and captured output (State.Out pointed at a local buffer) is written to the restored writer on every return.",
+		explain: "Necessary structural conditions of agreement with the reference semantics, decided on the tables and the evaluator's control flow: every operator and node the parser can produce has an evaluation case (operator sets derived from the parser registries via the token-state engine); the precedence table induces exactly the documented weak order and binary operators are left-associative; && and || cannot evaluate their right operand once the left decides; no evaluation result reaches container storage without an error test (interprocedural may-be-error analysis with dominating Type()==ERROR tests as path-dependent sanitisers). Values computed by programs (arithmetic, scoping, slicing, loop control) are not decided. Also: left-before-right evaluation order, and captured output (State.Out pointed at a local buffer) is written to the restored writer on every return. Shares C12.R1/R2: the comparison operators threshold a three-valued Cmp.",
 		assume:  []string{"the 13 precedence classes embedded in the checker are the documented semantics", "MacroLiteral outside top level is outside the core language"},
 		run:     runC01,
 	})
